@@ -409,6 +409,11 @@ pub fn run(tier: Tier) -> i32 {
         })
         .collect();
     e2_names.par_iter().for_each(|p| {
+        // honest sessions that fail without any failing call are C02's business: nothing to compare against
+        if !sess::run(&cfg_for(p, &[]), &honest(p)).steps.iter().all(|s| s.real.is_ok()) {
+            ctx.count("names_skipped_clean_run_failed", 1);
+            return;
+        }
         let s = seq_spec(p, extra, devs);
         let r = seqmc::explore(s.clone());
         ctx.add(&ctx.states, r.states);
